@@ -1,0 +1,9 @@
+//go:build verif
+
+package strutil
+
+//@ func ListContains
+//@   props C26
+//@   ensures result == (exists j int :: 0 <= j && j < len(list) && list[j] == str)
+//@   loop 0: invariant -1 <= idx0 && idx0 < len(list)
+//@   loop 0: invariant forall j int :: 0 <= j && j <= idx0 ==> list[j] != str
